@@ -19,4 +19,7 @@ CASES = [
          old="    subject: Subject[_TSource] = Subject()\n    return source.pipe(ops.multicast(subject=subject))", new="    shared: Subject[_TSource] = Subject()\n    return source.pipe(ops.multicast(subject=shared))")]),
     dict(expect="silent", desc="ref_count: explicit zero comparison", edits=[dict(file=RC,
          old="                if not count and connectable_subscription:", new="                if count == 0 and connectable_subscription:")]),
+    dict(expect="fire", desc="seed C24/2: ref_count tests count == 1 after subscribing", names="N2-ref-count", edits=[dict(file="reactivex/operators/connectable/_refcount.py",
+         old="            should_connect = count == 1\n            subscription = source.subscribe(observer, scheduler=scheduler)\n            if should_connect:",
+         new="            subscription = source.subscribe(observer, scheduler=scheduler)\n            if count == 1:")]),
 ]
